@@ -1114,6 +1114,10 @@ i_initialize_parser ()
 
   line_being_generated = 0;
   last_size_generated = 0;
+
+  /* a push sequence left open by the previous compilation must not be continued in this program */
+  push_state = 0;
+  push_start = 0;
 }
 
 void
